@@ -247,7 +247,8 @@ def check_map(case, ctx):
         ctx.state("".join(d.keys()))
         if twin is None and step + 1 == twin_at:
             twin = copy.copy(e)
-        if twin is not None:
+        # (half of the twins are looked at only once, after the last operation: an access may repair what it observes)
+        if twin is not None and (ctx.cases % 4 < 2 or step == len(case["ops"]) - 1):
             ctx.mon("shallow_copy_self_consistent")
             why = read_checks(twin, {f.key: f for f in twin.fields}, twin.entry_type, twin.key)
             if why:
